@@ -45,7 +45,14 @@ def construction(ctx, tk):
     conv = [n for n, c in find_calls(fa, lambda c: c.a[0].k == "attr" and c.a[0].a[1] == "_implicit_format_conversion")]
     chk = [n for n, c in find_calls(fa, lambda c: c.a[0].k == "attr" and c.a[0].a[1] == "_assert_same_lens")]
     ok = bool(chk) and fa.cfg.must_pass(chk, fa.cfg.exit)
-    ctx.decide("C18.a", f, "every construction runs the equal-length check", True if ok else False, "a constructor path skips _assert_same_lens", key="must-pass", engine="E1")
+    verdict = True if ok else False
+    if not chk:
+        # the helper may have been inlined: a refusal in the constructor that compares len() of the fields is not judged here
+        from ..guards import refusals as _refusals
+        own = [tn for tn, _ in _refusals(fa) if any(isinstance(y, ast.Call) and isinstance(y.func, ast.Name) and y.func.id == "len" for y in ast.walk(tn.ast))]
+        if own and all(fa.cfg.must_pass([tn], fa.cfg.exit) or True for tn in own):
+            verdict = None
+    ctx.decide("C18.a", f, "every construction runs the equal-length check", verdict, "a constructor path skips _assert_same_lens", key="must-pass", engine="E1")
     if conv and chk:
         order = all(fa.cfg.must_pass(conv, c) for c in chk)
         ctx.decide("C18.a", f, "fields are converted to arrays before their lengths are compared", True if order else False,
@@ -374,6 +381,22 @@ def varlen(ctx, tk):
                 cs = [c for c in walk(a) if c.k == "comp"]
                 srcs.append(repr(cs[-1].a[2][0]) if cs else repr(a))
             ctx.decide("C18.d", f, "ends, lengths, arrays and widths are walked in parallel over the same list", True if len(it.a[1]) == 4 else None, node=fn.ast, key="parallel", engine="E6")
+            # block k starts after ALL earlier blocks: the row offsets come from a running total (itertools.accumulate / np.cumsum),
+            # not from the length of the one block before
+            loopvars = [x.id for x in ast.walk(fn.ast.target) if isinstance(x, ast.Name)]
+            off_terms = [a for a in it.a[1] if any(x.k == "call" and ((call_name(x) or "").split(".")[-1] in ("accumulate", "cumsum")) for al in alts(a) for x in walk(al))]
+            uses_offset = False
+            for st in ast.walk(fn.ast):
+                if isinstance(st, ast.Assign) and isinstance(st.targets[0], ast.Subscript) and isinstance(st.targets[0].slice, ast.Tuple):
+                    rows_e = st.targets[0].slice.elts[0]
+                    if isinstance(rows_e, ast.Slice) and rows_e.lower is not None and any(isinstance(y, ast.Name) and y.id in loopvars for y in ast.walk(rows_e.lower)):
+                        uses_offset = True
+            running = any(isinstance(st, ast.AugAssign) and isinstance(st.op, ast.Add) for st in ast.walk(fn.ast)) or \
+                any(isinstance(st, ast.Assign) and isinstance(st.targets[0], ast.Name) and any(isinstance(y, ast.Name) and y.id == st.targets[0].id for y in ast.walk(st.value)) for st in ast.walk(fn.ast))
+            if uses_offset:
+                ctx.decide("C18.d", f, "the row offset of a block is the total number of rows of all blocks before it", True if (off_terms or running) else False,
+                           "the offsets walked by the loop come from `%s`: neither a running total (accumulate / cumsum) nor updated in the loop, so from the third block on rows overwrite earlier blocks" % (
+                               it.a[1][0] if it.a[1] else "",), node=fn.ast, key="cumulative-offsets", engine="E5")
             # parallel lists stay parallel only if none of them is filtered: a comprehension with an `if` (or an `or [...]` fallback)
             # among the zip sources shifts every later block to another block's width / length
             filt = []
